@@ -1,6 +1,6 @@
 (* C04 — Compiled routines are closed over the top-level inputs. *)
 From Coq Require Import List String QArith.
-From Bq Require Import Expr ExprFacts RepModel Routine Compare Compile CompileTop StructureFacts.
+From Bq Require Import Expr ExprFacts RepModel Routine Compare Compile CompileTop CompileFacts StructureFacts Scoped InvFacts.
 Import ListNotations.
 Open Scope string_scope.
 
@@ -36,3 +36,32 @@ Proof.
   - intros x [H|[H|[H|[]]]]; subst; auto.
   - intros x v. cbn. repeat (destruct (String.eqb x _); [intro H; inversion H; reflexivity|]). discriminate.
 Qed.
+
+(* ---- the whole tree ----
+   `ev_scoped G` is the compile step that refuses an expression mentioning a symbol which is neither defined
+   by the node's dictionary (parameters, local variables, `#port` variables, `child.resource` references) nor in
+   G: the executable form of "well-scoped".  If the scoped traversal answers, the compile model answers the
+   SAME tree, and every symbol of every value stored anywhere in it -- node inputs, port sizes, resources,
+   repetition counts and sequence fields, retained constraints, at every depth -- is in G.
+   `compile_scoped` instantiates G with the preprocessed root's input parameters (plus the iterator symbols of
+   custom sequences, which are legitimately free in their terms; partial: they are admitted in every field, the
+   stream checks that they occur in the terms only).  The stream runs compile_scoped on every generated case and
+   reports when it does not answer although compile_routine does (hypothesis met at scale). *)
+Theorem C04_compiled_tree_closed : forall G fuel r inputs t,
+  Penv expr (over_G G) inputs ->
+  go (ev_scoped G) statusE fv fuel r inputs = Ok t ->
+  go ev_subst statusE fv fuel r inputs = Ok t /\ Ptree expr (over_G G) t.
+Proof. exact compiled_tree_closed. Qed.
+Print Assumptions C04_compiled_tree_closed.
+
+(* the invariant theorem behind it, for every carrier and every predicate the expression step preserves *)
+Theorem C04_go_invariant : forall (D : Type) ev statusD fvD (P : D -> Prop),
+  (forall env e v, Penv D P env -> ev env e = Ok v -> P v) ->
+  forall fuel r inputs t, Penv D P inputs -> go ev statusD fvD fuel r inputs = Ok t -> Ptree D P t.
+Proof. exact go_inv. Qed.
+Print Assumptions C04_go_invariant.
+
+Example C04_tree_nonvacuous :
+  exists t, compile_scoped C01_example = Ok t /\ compile_routine C01_example = Ok t
+            /\ ct_src_params t = ["N"; "M"].
+Proof. eexists. split; [vm_compute; reflexivity|]. split; vm_compute; reflexivity. Qed.
